@@ -27,7 +27,7 @@
      defined, it is (e v <> None). *)
 From PV Require Import Lib.Bytes Gen.CondSimpSets Spec.BmakeCond Model.CondSimp
   Proofs.CondSimpA Proofs.CondSimpB Proofs.CondSimpNum Proofs.CondSimpC Proofs.CondSimpWords Proofs.CondSimpD
-  Proofs.CondSimpE Proofs.CondSimpF Spec.PrefsFile Model.CondFile Proofs.CondFileA Proofs.CondFileB.
+  Proofs.CondSimpE Proofs.CondSimpF Spec.PrefsFile Model.CondFile Proofs.CondFileA Proofs.CondFileB Proofs.CondSimpG.
 Open Scope N_scope.
 
 (* ---- the regenerated literals are the ones the model was written against ---- *)
@@ -399,3 +399,45 @@ Example C14_near_misses_do_not_load :
      [46; 46; 47; 46; 46; 47; 100; 47; 108; 47; 98; 117; 105; 108; 116; 105; 110; 46; 109; 107];
      [77; 97; 107; 101; 102; 105; 108; 101; 46; 99; 111; 109; 109; 111; 110]] = true.
 Proof. exact near_misses_do_not_load. Qed.
+
+(* ---- text <-> tree: the spec's own reader maps the texts pkglint writes to the trees the
+   theorems above are about (until round 4 this was only checked per generated case) ---- *)
+(* name_ok v: v is non-empty and consists of the reader's name bytes (letters, digits, _ .);
+   mods_ok ms: every prefix modifier is read by the reader as ONE modifier (scan_seg consumes it
+   to its end and seg_ok holds: plain bytes -- none of : $ \ ( ) { } and the double quote -- and nested ${NAME} only
+   after M or N); sufficient: only plain bytes (C14_plain_modifier_readable).
+   No hypothesis on the pattern: simplifyWord's and simplifyYesNo's own gates (the regenerated
+   byte sets, toLower's shape) already confine it. *)
+Theorem C14_word_text_is_tree : forall cx v mods fe neg rw,
+  In rw (simplify_word cx v mods fe neg) ->
+  name_ok v = true -> mods_ok (removelast mods) = true ->
+  parse_cond (rw_from rw) = rw_from_c rw /\ parse_cond (rw_to rw) = rw_to_c rw.
+Proof. exact word_text_is_tree. Qed.
+Print Assumptions C14_word_text_is_tree.
+
+Theorem C14_yesno_text_is_tree : forall cx v mods fe neg rw,
+  In rw (fst (simplify_yesno cx v mods fe neg)) ->
+  name_ok v = true -> mods_ok (removelast mods) = true ->
+  parse_cond (rw_from rw) = rw_from_c rw /\ parse_cond (rw_to rw) = rw_to_c rw.
+Proof. exact yesno_text_is_tree. Qed.
+Print Assumptions C14_yesno_text_is_tree.
+
+(* simplifyMatch: its regex gate confines every byte of the modifiers; what is needed (and
+   necessary: ':Ma:b' is read back as two modifiers) is that no modifier contains a ':' *)
+Theorem C14_match_text_is_tree : forall cx v mods fe neg rw,
+  In rw (simplify_match cx v mods fe neg) ->
+  name_ok v = true -> forallb no_colon mods = true ->
+  parse_cond (rw_from rw) = rw_from_c rw /\ parse_cond (rw_to rw) = rw_to_c rw.
+Proof. exact match_text_is_tree. Qed.
+Print Assumptions C14_match_text_is_tree.
+
+Theorem C14_plain_modifier_readable : forall m, mod_ok m = true -> mod_readable m = true.
+Proof. exact mod_ok_readable. Qed.
+Print Assumptions C14_plain_modifier_readable.
+
+(* the hypotheses hold for the names and prefix modifiers the harness generates *)
+Example C14_text_tree_hypotheses_satisfiable :
+  name_ok [67; 49; 52; 69; 65; 95; 85; 46; 102; 111; 111] = true /\        (* C14EA_U.foo *)
+  mods_ok [[116; 108]; [85]; [85; 97; 108; 112; 104; 97]] = true /\         (* tl, U, Ualpha *)
+  forallb no_colon [[116; 108]; [77; 97; 108; 42]] = true.                   (* tl, Mal*  *)
+Proof. vm_compute. repeat split; reflexivity. Qed.
